@@ -1,6 +1,124 @@
 import YaegiVerif.Common.Sexp
-/- Line-protocol front end for C08 (glue). Placeholder until the property's model exists. -/
+import YaegiVerif.Model.Conc
+import YaegiVerif.Model.ConcFrames
+import YaegiVerif.Generated.C08
+/- Line-protocol front end for C08 (glue, not a proof obligation).
+
+     run PROG ACTS HEAP SEED FUEL   → y=<result> g=<result> s=<solo traces> d=<1 iff no select> n=<steps>
+     xtalk PROG ACTS HEAP           → the same under the adversarial schedule "every activation fills, then
+                                      round-robin": x=1 iff some trace differs between y and g
+     facts                          → the extracted table and facts, as the driver sees them
+
+   PROG = (STMT …)   STMT = (set d v) | (add d a b) | (addc d a c) | (jlt a b t) | (jmp t) | (send ch src)
+                          | (recv d ok ch) | (close ch) | (select CASE …) | (print s) | (halt)
+   CASE = (recv ch slot target) | (send ch slot target) | (dflt target)
+   ACTS = ((SLOTS) (CHANS)) …       HEAP = ((cap closed v …) …)
+   result = per activation `<d|b|r>:<v,v,…>` joined by `|`, then `~` and the channel buffers `v,v;v,…`
+   `y` runs the model with Generated.C08.closureWrites, `g` with the empty table (Go: locals of one execution).
+   Schedule: SEED drives a linear congruential generator for FUEL picks (activation, choice), followed by
+   round-robin passes until nothing moves. -/
 namespace YaegiVerif.Driver.C08
-open YaegiVerif
-def handle (_args : List Sexp) : String := "unimplemented"
+open YaegiVerif YaegiVerif.Conc
+
+def parseCase : Sexp → Option Case
+  | .list [.atom "recv", c, s, t] => do some ⟨.recv, ← c.nat?, ← s.nat?, ← t.nat?⟩
+  | .list [.atom "send", c, s, t] => do some ⟨.send, ← c.nat?, ← s.nat?, ← t.nat?⟩
+  | .list [.atom "dflt", t] => do some ⟨.dflt, 0, 0, ← t.nat?⟩
+  | _ => none
+
+def parseStmt : Sexp → Option Stmt
+  | .list [.atom "set", d, v] => do some (.set (← d.nat?) (← v.int?))
+  | .list [.atom "add", d, a, b] => do some (.add (← d.nat?) (← a.nat?) (← b.nat?))
+  | .list [.atom "addc", d, a, c] => do some (.addc (← d.nat?) (← a.nat?) (← c.int?))
+  | .list [.atom "jlt", a, b, t] => do some (.jlt (← a.nat?) (← b.nat?) (← t.nat?))
+  | .list [.atom "jmp", t] => do some (.jmp (← t.nat?))
+  | .list [.atom "send", c, s] => do some (.send (← c.nat?) (← s.nat?))
+  | .list [.atom "recv", d, o, c] => do some (.recv (← d.nat?) (← o.nat?) (← c.nat?))
+  | .list [.atom "close", c] => do some (.close (← c.nat?))
+  | .list (.atom "select" :: cs) => do some (.select (← cs.mapM parseCase))
+  | .list [.atom "print", s] => do some (.print (← s.nat?))
+  | .list [.atom "halt"] => some .halt
+  | _ => none
+
+def parseAct : Sexp → Option Act
+  | .list [.list sl, .list ch] => do some (mkAct (← sl.mapM Sexp.int?) (← ch.mapM Sexp.nat?))
+  | _ => none
+
+def parseChan : Sexp → Option Chan
+  | .list (cap :: closed :: vs) => do some ⟨← vs.mapM Sexp.int?, ← cap.nat?, ← closed.bool?⟩
+  | _ => none
+
+def showVals (vs : List Val) : String := ",".intercalate (vs.map toString)
+
+def showResult (prog : List Stmt) (nch : Nat) (σ : State) : String :=
+  let acts := σ.acts.map fun a =>
+    (if a.done prog then "d" else if a.phase == .waiting then "b" else "r") ++ ":" ++ showVals a.out
+  "|".intercalate acts ++ "~" ++ ";".intercalate ((List.range nch).map fun c => showVals (σ.heap c).buf)
+
+def lcg (x : Nat) : Nat := (x * 6364136223846793005 + 1442695040888963407) % 18446744073709551616
+
+/-- FUEL pseudo-random picks -/
+def randomSched (nacts : Nat) : Nat → Nat → List Pick → List Pick
+  | 0, _, acc => acc.reverse
+  | fuel + 1, x, acc =>
+    let x1 := lcg x
+    let x2 := lcg x1
+    randomSched nacts fuel x2 (⟨(x1 / 65536) % (max nacts 1), (x2 / 65536) % 7⟩ :: acc)
+
+/-- round-robin passes until a pass moves nothing (or the pass budget is used up) -/
+def settle (cw : CW) (prog : List Stmt) (nacts : Nat) : Nat → State → Nat → State × Nat
+  | 0, σ, n => (σ, n)
+  | passes + 1, σ, n =>
+    let σ' := run cw prog ((List.range nacts).map fun i => ⟨i, passes⟩) σ
+    if σ'.acts == σ.acts then (σ, n) else settle cw prog nacts passes σ' (n + nacts)
+
+def runFull (cw : CW) (prog : List Stmt) (sched : List Pick) (σ : State) : State × Nat :=
+  let σ1 := run cw prog sched σ
+  settle cw prog σ.acts.length 4000 σ1 sched.length
+
+def soloTraces (cw : CW) (prog : List Stmt) (sched : List Pick) (σ : State) : String :=
+  "|".intercalate ((List.range σ.acts.length).map fun i =>
+    -- activation i alone: its own picks of the schedule, then only its own steps until it stops moving
+    let σ1 := runSolo cw prog i sched σ
+    let rec go : Nat → State → State
+      | 0, τ => τ
+      | k + 1, τ =>
+        let τ' := step cw prog ⟨i, k⟩ τ
+        if τ'.acts == τ.acts then τ else go k τ'
+    showVals (trace i (go 4000 σ1)))
+
+def answer (prog : List Stmt) (acts : List Act) (chans : List Chan) (sched : List Pick) : String :=
+  let σ := mkState acts chans
+  let (y, n) := runFull Generated.C08.closureWrites prog sched σ
+  let (g, _) := runFull [] prog sched σ
+  let ys := showResult prog chans.length y
+  let gs := showResult prog chans.length g
+  let dom := prog.all (fun s => !(shared Generated.C08.closureWrites s))
+  s!"y={ys} g={gs} s={soloTraces [] prog sched σ} d={if dom then "1" else "0"} x={if ys == gs then "0" else "1"} n={n}"
+
+def parseInput (p a h : Sexp) : Option (List Stmt × List Act × List Chan) := do
+  let ps ← p.list?
+  let as ← a.list?
+  let hs ← h.list?
+  some (← ps.mapM parseStmt, ← as.mapM parseAct, ← hs.mapM parseChan)
+
+def showFacts : String :=
+  let cw := ";".intercalate (Generated.C08.closureWrites.map fun e => e.1 ++ ":" ++ ",".intercalate e.2)
+  let f := Generated.C08.goFacts
+  let b (x : Bool) := if x then "1" else "0"
+  s!"cw={if cw.isEmpty then "-" else cw} argsCopied={b f.argsCopied} goBinArgsCopied={b f.goBinArgsCopied} closureClones={b f.closureClones} cloneLocked={b f.cloneLocked} storeLocked={b (f.getFuncStoreLocked && f.getFuncRestoreLocked)} wrapperFramePerCall={b f.wrapperFramePerCall}"
+
+def handle (args : List Sexp) : String :=
+  match args with
+  | [.atom "run", p, a, h, seed, fuel] =>
+    (match parseInput p a h, seed.nat?, fuel.nat? with
+     | some (prog, acts, chans), some sd, some fl => answer prog acts chans (randomSched acts.length fl sd [])
+     | _, _, _ => "bad-op")
+  | [.atom "xtalk", p, a, h] =>
+    (match parseInput p a h with
+     | some (prog, acts, chans) => answer prog acts chans ((List.range acts.length).map fun i => ⟨i, 0⟩)
+     | none => "bad-op")
+  | [.atom "facts"] => showFacts
+  | _ => "bad-op"
+
 end YaegiVerif.Driver.C08
